@@ -11,7 +11,8 @@ symbol of `x`:
                       definitional unfolding), otherwise the lemmas `P_rec1 … P_rec6` are tried
   * a variable      → `assumption`, or, when it was bound by `let (x, _) := f …`, continue with
                       `(f …).1`
-Side goals: `∀`/`→` are introduced, equations are closed by `rfl`, `≤` by `omega`.
+Side goals: `∀`/`→` are introduced, equations are closed by `rfl`/`assumption`, `≤` by `omega`,
+`<` by `omega`/`decide`.
 -/
 import Lean
 import Strophe.Model.ConnOps
@@ -53,6 +54,9 @@ elab "cstep" : tactic => withMainContext do
     return
   if t.isAppOfArity ``LE.le 4 then
     evalTactic (← `(tactic| first | omega | (dsimp only; omega)))
+    return
+  if t.isAppOfArity ``LT.lt 4 then
+    evalTactic (← `(tactic| first | omega | decide))
     return
   let .const pname _ := t.getAppFn | throwError "cstep: not a predicate goal"
   let .str pns pshort := pname | throwError "cstep: anonymous predicate"
